@@ -331,8 +331,8 @@ def run(ctx):
     import cuqi.samples._samples as smod
     rng = ctx.rng
     thorough = ctx.tier == "thorough"
-    K = ctx.scale
-    ctx.trusted += ["CPython/numpy basic slicing `a[..., b::t]` (tied to the model's `sliceIdx` exhaustively for n<=12)",
+    K = ctx.scale * (3 if thorough else 1)
+    ctx.trusted += ["CPython/numpy basic slicing `a[..., b::t]` (tied to the model's `sliceIdx` exhaustively for n<=10 quick, n<=16 thorough)",
                     "arviz.ess / arviz.rhat as leaf functions of the chains they are handed",
                     "geometry maps par2fun/fun2par/fun2vec/vec2fun (property C13) enter as data: the model is given the same map"]
     ctx.assumptions += ["raw samples are small integers or quarter-integers, so every float operation of the implementation except /N and percentile interpolation is exact",
@@ -386,7 +386,7 @@ def run(ctx):
         seq_cases.append((g, rep, arr, [op], "burnthin-grid"))
 
     # ------------------------------------------------------------------ 3. sequences of burnthin / funvals / vector / parameters
-    nseq = 500 * K
+    nseq = 1200 * K
     for i in range(nseq):
         g = make_geom(cuqi, rng)
         rep = rng.choice(["par", "par", "par", "vec", "fun"])
@@ -414,6 +414,7 @@ def run(ctx):
     outs = ctx.lean.drive(lines)
     final_states = []   # (g, final impl Samples or None, model final state string)
     aliasing = 0
+    nonfinite = [0]
     for (g, rep, arr, ops, kind), out in zip(seq_cases, outs):
         ip, iv = {"par": (True, True), "vec": (False, True), "fun": (False, arr.ndim <= 2), "raw": (False, False)}[rep]
         desc = {"geometry": g.spec, "rep": rep, "shape": list(arr.shape), "ops": [op_str(o) for o in ops],
@@ -453,7 +454,7 @@ def run(ctx):
             # ---- correspondence
             m = mstates[k] if k < len(mstates) else "missing"
             if st == "nonfinite":
-                ctx.note(f"non-finite values produced by the geometry map at {g.spec} {op_str(op)}: state not compared with the exact model")
+                nonfinite[0] += 1
                 istates[-1] = "err:nonfinite"
                 break
             if not states_equal(m, st, exact=g.exact):
@@ -474,9 +475,17 @@ def run(ctx):
             if exc is not None:
                 break
             cur = R
+            if isinstance(R.samples, np.ndarray) and R.samples.shape[-1] == 0:
+                # an empty Samples object (only reachable through a negative burn-in / step): conversions of it
+                # depend on shape inference of the geometry, which the model does not carry — stop here
+                istates.append("err:empty")
+                break
         final_states.append((g, cur if len(istates) == len(ops) and not istates[-1].startswith("err") else None,
                              mstates[-1] if mstates and len(mstates) == len(ops) and not mstates[-1].startswith("err") else None, desc))
     ctx.extra_cov["burnthin_results_sharing_memory_with_source"] = aliasing
+    ctx.extra_cov["states_with_nonfinite_values_not_compared"] = nonfinite[0]
+    if nonfinite[0]:
+        ctx.note(f"{nonfinite[0]} states contain NaN produced by a geometry map (StepExpansion with an empty interval, C13 finding): oracle run, exact model not compared")
     ctx.note(f"{aliasing} burnthin results are numpy views of the source array (the call itself leaves the source unchanged; later in-place writes to the result would alias)")
 
     # ------------------------------------------------------------------ 4. statistics (raw arrays and final states of the sequences)
@@ -485,7 +494,7 @@ def run(ctx):
         for p in LEVELS:
             arr = np.array([rng.randint(-20, 20) for _ in range(int(np.prod(shape)) * N)], dtype=float).reshape(shape + (N,))
             stat_cases.append((arr, p, "stat-grid", None))
-    for _ in range(150 * K):
+    for _ in range(400 * K):
         shape = rng.choice([(1,), (2,), (3,), (5,), (2, 2), (3, 2), (2, 1, 2)])
         N = rng.choice([1, 2, 3, 4, 7, 8, 10, 16, 25, 33])
         arr = np.array([rng.randint(-20, 20) for _ in range(int(np.prod(shape)) * N)], dtype=float).reshape(shape + (N,))
@@ -599,7 +608,7 @@ def run(ctx):
 
     smod.arviz = Spy()
     try:
-        n_ess = 45 * K
+        n_ess = 80 * K
         ecases = []
         kinds = ["default", "cont1d", "discrete", "names", "dupnames", "imgF", "step", "map-aff-img", "one", "discrete"]
         for i in range(n_ess):
@@ -653,7 +662,7 @@ def run(ctx):
                 ctx.disagree(fkey(ctx, nf, key), desc, out[:300], impl[:300], "dictionary handed to arviz differs")
 
         # R-hat
-        n_rh = 40 * K
+        n_rh = 70 * K
         rcases = []
         rkinds = ["default", "cont1d", "names", "dupnames", "step", "imgC", "discrete", "stepvec", "map-aff-img", "mismatch"]
         for i in range(n_rh):
@@ -724,7 +733,7 @@ def joint_part(ctx, cuqi, rng, K):
     """JointSamples.burnthin is member-wise"""
     from cuqi.samples import Samples, JointSamples
     jcases = []
-    for i in range(120 * K):
+    for i in range(300 * K):
         nm = rng.randint(0 if i % 40 == 0 else 1, 4)
         keys = rng.sample(["x", "y", "s", "d", "theta"], nm)
         members = []
@@ -775,3 +784,136 @@ def joint_part(ctx, cuqi, rng, K):
                 ctx.fail(key + ":refused", desc, "member-wise result", exc, "JointSamples.burnthin refuses although every member has more samples than the burn-in")
         if impl != out:
             ctx.disagree(fkey(ctx, nf, key), desc, out[:300], impl[:300], "joint burnthin differs between model and implementation")
+
+
+# ----------------------------------------------------------------------------- replay of one recorded case
+def geom_from_spec(spec):
+    """rebuild the cuqi geometry of a recorded case from its model spec"""
+    from cuqi.geometry import Continuous1D, Continuous2D, Image2D, Discrete, MappedGeometry, StepExpansion
+    f = spec.split(":")
+    if f[0] == "id":
+        d = int(f[1]); return G(None, spec, "default", d, (d,), d)
+    if f[0] == "c1d":
+        d = int(f[1]); return G(Continuous1D(d), spec, "cont1d", d, (d,), d)
+    if f[0] == "disc":
+        d = int(f[1]); return G(Discrete(d), spec, "discrete", d, (d,), d)
+    if f[0] == "names":
+        names = f[1].split(","); d = len(names)
+        return G(Discrete(names), spec, "dupnames" if len(set(names)) < d else "names", d, (d,), d)
+    if f[0] == "img":
+        r, c = int(f[1]), int(f[2]); return G(Image2D((r, c), order=f[3]), spec, "img" + f[3], r * c, (r, c), r * c)
+    if f[0] == "c2d":
+        r, c = int(f[1]), int(f[2]); return G(Continuous2D((r, c)), spec, "c2d", r * c, (r, c), r * c, has_vec=False)
+    if f[0] == "step":
+        n, k = int(f[1]), int(f[2])
+        grid = 2 + 0.7 * np.arange(n) if "x" in f[3] else np.linspace(0, 1, n)
+        with quiet():
+            return G(StepExpansion(grid, n_steps=k), spec, "stepbad" if "x" in f[3] else "step", k, (n,), n, exact=False)
+    if f[0] == "map":
+        a, b, kind = float(Fraction(f[1])), float(Fraction(f[2])), f[3]
+        inner = geom_from_spec(":".join(f[4:]))
+        if kind == "sq":
+            obj = MappedGeometry(inner.obj, map=lambda x: x ** 2)
+        elif kind == "affnoinv":
+            obj = MappedGeometry(inner.obj, map=lambda x: a * x + b)
+        else:
+            obj = MappedGeometry(inner.obj, map=lambda x: a * x + b, imap=lambda y: (y - b) / a)
+        return G(obj, spec, "map-" + kind, inner.par_dim, inner.fun_shape, inner.funvec_dim, has_vec=inner.has_vec, has_inv=(kind == "aff"))
+    raise ValueError(spec)
+
+
+def parse_op(s):
+    f = s.split(":")
+    return ("bt", int(f[1]), int(f[2])) if f[0] == "bt" else (f[0],)
+
+
+def replay(ctx, rep):
+    """re-executes the recorded case (sequence / statistics / joint) on the current tree with the
+    implementation-only oracle; other kinds (or cases whose arrays were too large to record) re-run
+    the whole check with the recorded seed."""
+    cuqi = import_cuqi()
+    from cuqi.samples import Samples, JointSamples
+    item = rep.get("failure") or rep.get("disagreement") or {}
+    case, key = item.get("case", {}), item.get("key", "")
+    head = key.split(":")[0]
+    n0 = len(ctx.failures)
+    done = False
+    try:
+        if head in ("burnthin", "funvals", "vector", "parameters") and isinstance(case.get("samples"), list):
+            g = geom_from_spec(case["geometry"])
+            arr = np.array(case["samples"], dtype=float)
+            rep_ = case["rep"]
+            ip, iv = {"par": (True, True), "vec": (False, True), "fun": (False, arr.ndim <= 2), "raw": (False, False)}[rep_]
+            with quiet():
+                cur = Samples(arr.copy(), geometry=g.obj, is_par=ip, is_vec=iv)
+            for k, o in enumerate(case["ops"]):
+                op = parse_op(o)
+                if "op" in case and k == case.get("step"):
+                    op = parse_op(case["op"])
+                snap = snapshot(cur)
+                R, exc = None, None
+                try:
+                    with quiet():
+                        R = apply_op(cur, op)
+                except Exception as e:
+                    exc = type(e).__name__
+                kk = f"{'burnthin' if op[0] == 'bt' else {'fv': 'funvals', 'vec': 'vector', 'par': 'parameters'}[op[0]]}:{g.kind}:{rep_}"
+                if not untouched(cur, snap):
+                    ctx.fail(kk + ":source", case, "source object unchanged", "changed")
+                if op[0] == "bt" and op[1] >= 0 and op[2] >= 1:
+                    oracle_burnthin(ctx, kk, case, cur, op[1], op[2], R, exc)
+                elif op[0] != "bt" and exc is None:
+                    oracle_convert(ctx, kk, case, cur, op[0], R, g)
+                if exc is not None or k == case.get("step"):
+                    break
+                cur = R
+            done = True
+        elif head == "stats" and isinstance(case.get("samples"), list):
+            arr = np.array(case["samples"], dtype=float)
+            p = case["percent"]
+            with quiet():
+                S = Samples(arr.copy())
+                mean, med, var, std = S.mean(), S.median(), S.variance(), S.std()
+                try:
+                    ci, width = S.compute_ci(p), S.ci_width(p)
+                except Exception:
+                    ci = width = None
+            oracle_stats(ctx, ":".join(key.split(":")[:2]), case, arr, p, (mean, med, var, std, ci, width))
+            done = True
+        elif head == "joint":
+            op = parse_op(case["op"])
+            mem = [(k, geom_from_spec(spec), np.array(case["samples"][k], dtype=float)) for k, spec, _ in case["members"]]
+            with quiet():
+                J = JointSamples({k: Samples(a.copy(), geometry=g.obj) for k, g, a in mem})
+            try:
+                with quiet():
+                    R = J.burnthin(op[1], op[2])
+            except Exception as e:
+                R = None
+                if op[1] >= 0 and op[2] >= 1 and all(op[1] < a.shape[-1] for _, _, a in mem):
+                    ctx.fail("joint:burnthin:refused", case, "member-wise result", type(e).__name__)
+            if R is not None and op[1] >= 0 and op[2] >= 1:
+                if list(R.keys()) != [k for k, _, _ in mem]:
+                    ctx.fail("joint:burnthin:keys", case, [k for k, _, _ in mem], list(R.keys()))
+                else:
+                    for k, g, a in mem:
+                        oracle_burnthin(ctx, "joint:burnthin:member", {**case, "member": k}, J[k], op[1], op[2], R[k], None)
+            done = True
+    except Exception as e:   # malformed replay file: fall back to the full run
+        ctx.note(f"replay of the single case failed ({e!r}); running the whole check")
+    if not done:
+        ctx.seed = rep.get("seed", ctx.seed)
+        import random
+        ctx.rng = random.Random(f"{ctx.pid}-{ctx.seed}")
+        lean_rep = ctx.lean.build_and_audit()
+        run(ctx)
+        return ctx.finish(lean_rep)
+    new = ctx.failures[n0:]
+    from harness.core import KnownMap
+    known = KnownMap([k for k in ctx.known if k.get("status", "open") == "open"])
+    unknown = [f for f in new if f["key"] not in known]
+    for f in new:
+        print(("KNOWN-FINDING" if f["key"] in known else "VIOLATION") + f" property=C19 key={f['key']} demanded={str(f['demanded'])[:80]} got={str(f['got'])[:80]}")
+    if not new:
+        print("[C19] replay: the property holds at the recorded input on the current tree")
+    return 1 if unknown else 0
